@@ -81,6 +81,7 @@ type Run struct {
 	// change descriptions the watchers held when a batch was taken / that reached the services (C14, L2)
 	batchTaken, batchDelivered map[string]int
 	bmu                        sync.Mutex
+	freshTwice                 bool // the next fresh pipelines run two full syncs
 	step                       int
 	faultsLeft                 int
 	faultsOff                  bool
